@@ -79,7 +79,7 @@ def scratch(ctx):
 # a tree is a list of [relpath, "d"] | [relpath, "f", hex content, readable]; relpaths are relative to the
 # scratch dir; the served root is always base/root
 ROOT_REL = "base/root"
-IN_NAMES = ["a", "b", "f.txt", "index.html", "idx", "sub", "a\\b", "é", "...", "..a", "a b", "root", "base"]
+IN_NAMES = ["a", "b", "f.txt", "index.html", "idx", "sub", "a\\b", "é", "...", "..a", "a b", "root", "base", "xidx", "xindex.html"]
 OUT_NAMES = ["index.html", "idx", "secret.txt", "root2", "rootx", "other", "root.txt"]
 
 
@@ -134,7 +134,7 @@ def gen_inside(rng, big=False):
             used.add(p)
             r = rng.random()
             if nm in ("index.html", "idx"):
-                if r < 0.12:
+                if r < 0.25:
                     ins.append(t_dir(p))
                     if rng.random() < 0.5:
                         ins.append(t_file(p + "/" + nm, content()))
@@ -155,7 +155,11 @@ def fixed_tree():
            t_dir("base/root/sub"), t_file("base/root/sub/index.html", b"SUB INDEX"), t_file("base/root/sub/a", b"A"),
            t_dir("base/root/empty"), t_file("base/root/idx", b"IDX"), t_file("base/root/secret.txt", b"not secret"),
            t_dir("base/root/root2"), t_file("base/root/root2/f.txt", b"inner root2"),
-           t_file("base/root/unreadable", b"xx", False), t_dir("base/root/..."), t_file("base/root/.../a", b"dots")]
+           t_file("base/root/unreadable", b"xx", False), t_dir("base/root/..."), t_file("base/root/.../a", b"dots"),
+           t_file("base/root/xidx", b"x-idx"), t_file("base/root/sub/xindex.html", b"x-index"),
+           # index pages that are directories (with and without an index file of their own)
+           t_dir("base/root/a"), t_dir("base/root/a/index.html"), t_dir("base/root/a/idx"), t_file("base/root/a/idx/idx", b"deep idx"),
+           t_dir("base/root/b"), t_dir("base/root/b/index.html"), t_file("base/root/b/index.html/index.html", b"deep index")]
     return ins
 
 
@@ -220,7 +224,7 @@ class Mat:
                 with open(p, "wb") as f:
                     f.write(bytes.fromhex(e[2]))
         for d, ds, fs in os.walk(T):
-            if d.startswith(os.path.join(T, ROOT_REL)):
+            if d == os.path.join(T, ROOT_REL) or d.startswith(os.path.join(T, ROOT_REL) + "/"):
                 continue
             for n in fs + ds:
                 if os.path.join(d, n) != os.path.join(T, ROOT_REL):
@@ -398,8 +402,8 @@ def dirapp(T, idx, hide):
 # --------------------------------------------------------------------------- URL generation
 SEGS = ["", ".", "..", "...", "%2e%2e", "%2E", "..%2f", "%2f", "a%2f..", "%5c", "..%5c..", "a%5cb", "..a",
         "root", "root2", "rootx", "base", "other", "index.html", "idx", "secret.txt", "nope", "a", "b", "f.txt", "sub",
-        "%c3%a9", "a%20b", "root.txt", "unreadable", "empty"]
-CORE = ["", ".", "..", "%2e%2e", "root", "root2", "base", "index.html", "sub", "f.txt", "a", "other"]
+        "%c3%a9", "a%20b", "root.txt", "unreadable", "empty", "xidx", "xindex.html"]
+CORE = ["", ".", "..", "%2e%2e", "root", "root2", "base", "index.html", "sub", "f.txt", "xidx", "a", "other"]
 
 
 def rand_url(rng, tree_names):
@@ -427,6 +431,7 @@ def names_of(tree):
     return sorted({c for e in tree for c in e[0].split("/")})
 
 
+CORE4 = ["", ".", "..", "%2e%2e", "root", "root2", "index.html", "sub", "a"]
 CFGS = [("index.html", False), ("index.html", True), (None, False), ("idx", True), ("", True), (None, True), ("idx", False)]
 
 
@@ -541,8 +546,9 @@ def nonint_diff(url, r1, r2):
         return None
     if r1 != r2:
         key = "dirapp:outside-existence-disclosed" if r1[0] != r2[0] else "dirapp:outside-changes-response"
-        return (key, "GET %s: the response depends on what exists OUTSIDE the root: %d %r %r vs %d %r %r"
-                % (url, r1[0], hdr(r1[1], "Location"), r1[2][:50], r2[0], hdr(r2[1], "Location"), r2[2][:50]))
+        hd = [h for h in r1[1] if h not in r2[1]] + [h for h in r2[1] if h not in r1[1]]
+        return (key, "GET %s: the response depends on what exists OUTSIDE the root: %d %r %r vs %d %r %r (differing headers %r)"
+                % (url, r1[0], hdr(r1[1], "Location"), r1[2][:50], r2[0], hdr(r2[1], "Location"), r2[2][:50], hd))
     return None
 
 
@@ -802,8 +808,25 @@ def report_corr(ctx, name, bad, cases, T, mat):
                               % (name, json.dumps(case)[:700], cases[i][1]))
 
 
+def coqchk(ctx):
+    """Thorough tier: re-check the compiled closure of Props/C17.vo with the stand-alone checker."""
+    import fcntl
+    import subprocess
+    with open(os.path.join(fw.BUILD, "coq.lock"), "w") as lk:
+        fcntl.flock(lk, fcntl.LOCK_EX)
+        p = subprocess.run(["timeout", "1200", "coqchk", "-silent", "-o", "-Q", fw.COQ, "Webob", "Webob.Props.C17"],
+                           capture_output=True, text=True)
+    out = p.stdout + p.stderr
+    ok = p.returncode == 0 and "Axioms: <none>" in out
+    ctx.note("coqchk -o Webob.Props.C17: %s" % ("ok, Axioms: <none>" if ok else "FAILED: " + out[-400:]))
+    if not ok:
+        ctx.broken.append("coqchk rejected Props/C17.vo: " + out[-400:])
+
+
 def run(ctx):
     ctx.build(["Props/C17.vo"])
+    if ctx.thorough and getattr(ctx, "build_ok", False):
+        coqchk(ctx)
     install_shim()
     T = scratch(ctx)
     mat = Mat(T)
@@ -1087,7 +1110,7 @@ def _run(ctx, T, mat):
     nA = nontrivA = 0
     ex_urls = []
     for d in range(0, depth + 1):
-        for segs in itertools.product(CORE, repeat=d):
+        for segs in itertools.product(CORE if d <= 3 else CORE4, repeat=d):
             ex_urls.append("/" + "/".join(segs))
             if d:
                 ex_urls.append("/" + "/".join(segs) + "/")
@@ -1095,7 +1118,7 @@ def _run(ctx, T, mat):
     for ti, inside in enumerate(insides):
         urls = list(ex_urls) if ti == 0 else []
         names = names_of(full_tree(inside, rich2))
-        urls += [rand_url(rng, names) for _ in range(ctx.scale(400, 2500))]
+        urls += [rand_url(rng, names) for _ in range(ctx.scale(400, 1500))]
         cfgs = CFGS if ti == 0 else [CFGS[ti % len(CFGS)], CFGS[(ti * 3 + 1) % len(CFGS)]]
         v1, v2 = variants[ti % 3], variants[(ti + 1) % 3]
         mat.build(full_tree(inside, v1[1]))
@@ -1250,7 +1273,7 @@ def _run(ctx, T, mat):
         "correspondence: distinct generated inputs (os.path spellings; DirectoryApp decisions and end-to-end responses over %d generated "
         "directory trees x 7 index_page/hide settings x PATH_INFO spellings of <=5 segments over names/./../empty/backslash/%%2f/%%2e/%%5c; "
         "FileApp/FileIter/AppIterRange over node kinds, methods, Range forms, block sizes, short reads, wrapper chunkings). "
-        "oracle: every PATH_INFO of <=%d segments over a 12-segment alphabet (with and without trailing slash) x 7 settings on the fixed tree, "
+        "oracle: every PATH_INFO of <=min(%d,3) segments over a 13-segment alphabet, and of 4 segments over 9 of them in the thorough tier (with and without trailing slash) x 7 settings on the fixed tree, "
         "plus random spellings on each generated tree, each run under two different worlds outside the root (non-trivial = answered 200 or 301); "
         "FileApp: all three Range forms with every bound 0..n+2 on files of 0..10 bytes x 11 iterator configurations, sizes around the real "
         "BLOCK_SIZE, arbitrary Range text; FileIter: all (seek, limit, block_size) on <=%d bytes; AppIterRange: all chunkings of %d bytes"
